@@ -5,7 +5,9 @@ mod space;
 mod textsem;
 mod conv;
 mod enumerate;
+mod dot;
 mod formulas;
+mod tablecheck;
 mod props;
 mod refl;
 mod robdd;
